@@ -202,18 +202,26 @@ class Replayer:
         # ordering(order) of the (possibly enlarged) lattice: the named order of its present shape
         reorder = st['last'].get('reorder', st['order'])
         if cfg['ord']['kind'] != 'perm' and cfg['cls'] != 'Grouped' and len(reorder) > 0:
+            # asking for an order must not change the lattice: lat2mps_idx of every lattice index before / after
+            box = np.indices(lat.shape).reshape(len(lat.shape), -1).T
+
+            def probe():
+                try:
+                    return np.asarray(lat.lat2mps_idx(box)).tolist()
+                except Exception as e:
+                    return [repr(e)]
+            before = probe()
+            exc = None
             try:
                 got = np.asarray(lat.ordering(hl.order_arg(cfg['ord'])))
             except Exception as e:
-                return self.fail(st, 'build', 'ordering-exception', repr(e), 'order', exc=type(e).__name__)
-            # asking for an order must not change the lattice
-            try:
-                back = np.asarray(lat.lat2mps_idx(np.asarray(lat.order)))
-            except Exception as e:
-                back = np.array([repr(e)])
-            if not np.array_equal(back, np.arange(lat.N_sites)):
-                self.fail(st, 'build', 'ordering-side-effect', back.tolist(), list(range(lat.N_sites)))
+                exc = e
+            after = probe()
+            if after != before:
+                self.fail(st, 'build', 'ordering-side-effect', after, before)
                 lat.order = lat.order  # the setter recomputes the index maps; go on with the other comparisons
+            if exc is not None:
+                return self.fail(st, 'build', 'ordering-exception', repr(exc), 'order', exc=type(exc).__name__)
             want = np.array(reorder, dtype=np.intp)
             if got.shape != want.shape or not np.array_equal(got, want):
                 return self.fail(st, 'build', 'ordering', got.tolist(), want.tolist(), ordname=cfg['ord'].get('name', ''))
